@@ -42,6 +42,7 @@ contract(
              and self.callable.args == other.callable.args
              and self.callable.kwargs == other.callable.kwargs),
     raises_any=True,
+    inline_at_calls=True,        # callers compare through the real body; these summaries are proved on their own
     serves=["C14"],
 )
 
@@ -53,6 +54,7 @@ contract(
              and ((self.children[0] == other.children[0] and self.children[1] == other.children[1])
                   or (self.children[0] == other.children[1] and self.children[1] == other.children[0]))),
     raises_any=True,
+    inline_at_calls=True,        # callers compare through the real body; these summaries are proved on their own
     serves=["C14"],
 )
 
@@ -64,6 +66,7 @@ contract(
     ensures=lambda self, other, result:
         same(result, type(self) == type(other) and self.condition == other.condition and self.label == other.label),
     raises_any=True,
+    inline_at_calls=True,        # callers compare through the real body; these summaries are proved on their own
     serves=["C14"],
 )
 
@@ -77,6 +80,7 @@ contract(
         same(result, type(self) == type(other) and self.condition == other.condition and self.label == other.label
              and self.list_condition == other.list_condition and self.map_condition == other.map_condition),
     raises_any=True,
+    inline_at_calls=True,        # callers compare through the real body; these summaries are proved on their own
     serves=["C14"],
 )
 
@@ -93,6 +97,7 @@ contract(
              and self.DATUM_TYPE == other.DATUM_TYPE and self.MULTI_TYPE == other.MULTI_TYPE
              and self.source_data == other.source_data),
     raises_any=True,
+    inline_at_calls=True,        # callers compare through the real body; these summaries are proved on their own
     serves=["C14"],
 )
 
@@ -108,6 +113,7 @@ contract(
         same(result, type(other) == type(self) and other.path == self.path and other.condition == self.condition
              and other.cast == self.cast),
     raises_any=True,
+    inline_at_calls=True,        # callers compare through the real body; these summaries are proved on their own
     serves=["C14"],
 )
 
@@ -122,6 +128,7 @@ contract(
     ensures=lambda self, other, result:
         same(result, type(self) == type(other) and self.rules == other.rules and self.rule_tests == other.rule_tests),
     raises_any=True,
+    inline_at_calls=True,        # callers compare through the real body; these summaries are proved on their own
     serves=["C14"],
 )
 
